@@ -63,7 +63,7 @@ def seeded_mutations(pid):
         d = os.path.dirname(mf)
         if pid in meta.get('caught_by', []):
             out.append({'id': 'seeded:' + os.path.basename(d), 'kind': 'fault', 'rule': None, 'patch': os.path.join(d, 'patch.diff'), 'edits': []})
-        elif pid in meta.get('refused_by', []):
+        elif pid in meta.get('refused_by', []) and meta.get('property') == pid:
             out.append({'id': 'seeded:' + os.path.basename(d), 'kind': 'fault', 'rule': None, 'patch': os.path.join(d, 'patch.diff'), 'edits': [], 'accept_undecided': True})
     return out
 
@@ -114,7 +114,9 @@ def verdicts(rep):
 def run_mutation(pid, mut, repo):
     d = scratch_copy(repo)
     try:
-        why = apply_patch(d, mut['patch']) if mut.get('patch') else apply_edits(d, mut['edits'])
+        why = apply_patch(d, mut['patch']) if mut.get('patch') else None
+        if not why and mut.get('edits'):
+            why = apply_edits(d, mut['edits'])
         if why:
             return {'id': mut['id'], 'status': 'skipped', 'why': why}
         # the variant must still compile with the project's flags
